@@ -70,13 +70,12 @@ theorem rel_abortRets (n : Nat) : ∀ {k : Nat} {j : J}, R (k + n) s g j →
     have h1 : R (k + n) s g (AioSpec.step j .abortRet) := rel_abortRet (by rw [Nat.add_assoc]; exact h)
     exact ih h1
 
-/-- the relation reads the ghost only through `abE` and `absCfg` -/
-theorem R_congr_g {g1 g2 : G} (h1 : g1.abE = g2.abE) (h2 : g1.absCfg = g2.absCfg) (h : R k s g1 j) :
+/-- the relation reads the ghost only through `abE` -/
+theorem R_congr_g {g1 g2 : G} (h1 : g1.abE = g2.abE) (h : R k s g1 j) :
     R k s g2 j := by
-  rcases h with ⟨⟨b1,b2,b3,b4,b5,b6,b7,b8,b9,b10,b11,b12,b13,b14,b15,b16,b17⟩, hh, ht⟩
-  refine ⟨⟨b1,b2,b3,b4,b5,b6,b7,?_,b9,b10,b11,b12,b13,b14,?_,b16,b17⟩, hh, ht⟩
-  · rw [← h2]; exact b8
-  · rw [← h1]; exact b15
+  rcases h with ⟨⟨b1,b2,b3,b4,b5,b6,b7,b8,b9,b10,b11,b12,b13,b14,b15,b16,b17,b18⟩, hh, ht⟩
+  refine ⟨⟨b1,b2,b3,b4,b5,b6,b7,b8,b9,b10,b11,b12,b13,b14,?_,b16,b17,b18⟩, hh, ht⟩
+  rw [← h1]; exact b15
 
 /-- one step with the returns of `nng_aio_abort` observed at once (`obsX`) -/
 theorem rel_step (l : Label) (hR : R 0 s g j) (i1 : Inv1 s) (i2 : Inv2 s) (i3 : Inv3 s) (i4 : Inv4 s)
@@ -107,7 +106,7 @@ theorem rel_stepP (pol : RetPolicy) (l : Label) (hR : R g.ret s g j) (i1 : Inv1 
         (judgeFrom j (obsCore s l)) := by
       rw [Nat.sub_add_cancel hle]; exact h
     have h2 := rel_abortRets (retNow pol s g l) h'
-    exact R_congr_g (g1 := gStep s g l) rfl rfl h2
+    exact R_congr_g (g1 := gStep s g l) rfl h2
   · right
     have hn : retNow pol s g l = 0 := by
       have := h.2.1; have := h.2.2; omega
